@@ -40,6 +40,8 @@ type Desc struct {
 	Lists    []List     `json:"lists,omitempty"`
 	LogLists [][]LogOpt `json:"log_lists,omitempty"`
 	Fleets   []Fleet    `json:"fleets,omitempty"`
+	// SliceFleets: one []util.Option value spread into several constructor calls (oneslice.go)
+	SliceFleets []SliceFleet `json:"slice_fleets,omitempty"`
 }
 
 // ---------------------------------------------------------------------------------------------
@@ -331,6 +333,14 @@ func gen(tier string, seed int64) []mon.Case {
 			d.Fleets = append(d.Fleets, genFleet(r))
 		}
 		cs = append(cs, mon.MkCase(fmt.Sprintf("c19/fleet/%04d", b), d))
+	}
+	cs = append(cs, mon.MkCase("c19/one-slice/dedicated", Desc{Kind: "oneslice", What: "one-slice:dedicated", SliceFleets: genDedicatedSliceFleets()}))
+	for b := 0; b < fb; b++ {
+		d := Desc{Kind: "oneslice", What: "one-slice:random"}
+		for i := 0; i < fper; i++ {
+			d.SliceFleets = append(d.SliceFleets, genSliceFleet(r))
+		}
+		cs = append(cs, mon.MkCase(fmt.Sprintf("c19/one-slice/%04d", b), d))
 	}
 	batches, per := 100, 40
 	if tier == "thorough" {
@@ -648,6 +658,8 @@ func run(c mon.Case) mon.Result {
 		return runLogInst(d)
 	case "fleets":
 		return runFleets(d)
+	case "oneslice":
+		return runSliceFleets(d)
 	}
 	return runLists(d)
 }
